@@ -106,3 +106,9 @@ UNITS.append(U(name='htp_normalize_parsed_uri', props=['C13', 'C12', 'C01'], kin
                min_obl=40, objbits=12,
                sub='port rule for EVERY int64 result of the integer parser: 1..65535 => that value, flags untouched; anything else => -1 and HTP_HOSTU_INVALID; path pipeline order decode -> utf8 (convert xor validate) -> normalise, each once, on the copy',
                assumes=['stages, bstr copies and the integer parser replaced by contracts (the integer parser by its full result lattice; the stages by sequence-logging stubs)']))
+
+UNITS.append(U(name='htp_connp_tx_remove', props=['C01', 'C05', 'C10'], kind='contract', src=['htp_connection_parser.c'],
+               enforce='htp_connp_tx_remove', contracts_inc=['c10_tx.h'],
+               harness='void HARNESS(void) { htp_connp_t *c; htp_tx_t *t; htp_connp_tx_remove(c, t); CANARY(); }', defs=D, min_obl=5,
+               sub='detaching a destroyed transaction: afterwards neither in_tx nor out_tx refers to it (also when it was the current transaction of BOTH directions), nothing else changes',
+               assumes=['tx is compared by address only (never dereferenced)']))
